@@ -337,6 +337,26 @@ theorem readyWait_progress (hL : LInv s) (hV : LiveInv s) {i : Nat} (hpc : s.cpc
     unfold stepC; simp only [hpc, hp, hg, hbf, if_true]
     split <;> rfl
 
+/-- the consumer waits in the mid-call `until_all_ready()` for worker `wid`: either `begin()` has completed and the
+consumer moves, or the worker is on its way through `begin()` and moves, or it has not been started yet — then the replace
+thread is about to start it -/
+theorem midReady_progress (hL : LInv s) (hV : LiveInv s) (hM : MidI s) {i wid : Nat} (hpc : s.cpc = .midReady i wid) :
+    ∃ t, (step s t).isSome = true := by
+  obtain ⟨w, hwm, hwid⟩ := hM.ex i wid hpc
+  have hg := getWorker_of_mem' hL.nodup hwm hwid
+  cases hbf : w.bf
+  · rcases hV.pr.bfPc w hwm hbf with h | h | h
+    · rcases hL.notStarted w hwm h with ⟨j, hj, _⟩ | hr
+      · rw [hpc] at hj; cases hj
+      · refine ⟨.r, repl_progress hL hV (rAlive_of_rpc hL (by rw [hr]; simp)) ?_⟩
+        intro hg'; rw [hr] at hg'; cases hg'
+    · exact ⟨.w w.wid, stepW_isSome (getWorker_of_mem hL.nodup hwm) (by unfold wCanStep; rw [h]; trivial)⟩
+    · exact ⟨.w w.wid, stepW_isSome (getWorker_of_mem hL.nodup hwm) (by unfold wCanStep; rw [h]; trivial)⟩
+  · refine ⟨.c, ?_⟩
+    show (stepC s).isSome = true
+    unfold stepC; simp only [hpc, hg, hbf, if_true]
+    split <;> rfl
+
 theorem enterStart_progress (hL : LInv s) (hV : LiveInv s) {i : Nat} (hpc : s.cpc = .enterStart i) :
     (step s .c).isSome = true := by
   have hidx : i < s.procs.length := by have := hV.pr.idx; rw [hpc] at this; exact this
@@ -425,10 +445,11 @@ theorem exitJoin_progress (hS : SafeInv s) (hL : LInv s) (hV : LiveInv s) {i : N
 
 /-! ### no deadlock, from the invariants -/
 
-theorem progress (hS : SafeInv s) (hL : LInv s) (hV : LiveInv s) (hw : WellCfg s.cfg)
+theorem progress (hS : SafeInv s) (hL : LInv s) (hV : LiveInv s) (hM : MidI s) (hw : WellCfg s.cfg)
     (hnd : s.cpc ≠ .done) : ∃ t, (step s t).isSome = true := by
   cases hpc : s.cpc
   case enterStart i => exact ⟨.c, enterStart_progress hL hV hpc⟩
+  case midReady i wid => exact midReady_progress hL hV hM hpc
   case readyWait i => exact readyWait_progress hL hV hpc
   case lockAcq =>
     cases hl : s.lock with
